@@ -71,9 +71,11 @@ Interchangeable(t, u) == ~IsErr(u) /\ (u = t \/ Differ(t, u) = {})
 \* the design under check
 Inv_DumpOk          == i > 0 => ~IsErr(RoundTrip(T, Dev))
 Inv_Interchangeable == i > 0 => LET u == RoundTrip(T, Dev) IN IsErr(u) \/ Interchangeable(T, u)
-Inv_SameValue       == i > 0 => LET u == RoundTrip(T, Dev) IN IsErr(u) \/ SameValue(T, u)
+\* ... including what every `!path` node evaluates relative to, for each way of FilePairs (AyDump: source files)
+Inv_SameValue       == i > 0 => LET u == RoundTrip(T, Dev) IN IsErr(u) \/ (SameValue(T, u) /\ SamePathsAll(T, u))
 Inv_SameMd          == i > 0 => LET u == RoundTrip(T, Dev) IN IsErr(u) \/ SameMd(T, u)
-Inv_DumpStable      == i > 0 => LET u == RoundTrip(T, Dev) IN IsErr(u) \/ DumpStable(T, u, Dev)
+\* ... including the `source_file:` keys of the `!path` mappings
+Inv_DumpStable      == i > 0 => LET u == RoundTrip(T, Dev) IN IsErr(u) \/ (DumpStable(T, u, Dev) /\ SfStableAll(T, u))
 
 \* the antecedents are reachable: some document needs a tag, some needs the
 \* encoded form, some child omits a flag because of the enclosing entry
@@ -94,11 +96,20 @@ Emit == i > 0 =>
         u  == RoundTrip(t, AsIs)
         ok == ~IsErr(u)
         dx == IF ok /\ u # t THEN Differ(t, u) ELSE {}
+        \* source files of the !path nodes, per way of FilePairs: original, re-parse, the two formulas
+        pf == IF ok /\ HasPathNode(t) /\ SfFits(u, SfDump(t, OrgParse(t, NoFile)))
+              THEN [q \in 1..Len(FilePairs) |->
+                      LET f == FilePairs[q][1]
+                          g == FilePairs[q][2]
+                      IN [f |-> f, g |-> g, l0 |-> SfOrig(t, f), l1 |-> SfAgain(t, u, f, g),
+                          pv |-> SamePaths(t, u, f, g), st |-> SfStable(t, u, f, g)]]
+              ELSE <<>>
     IN PrintT(ToJson([i |-> i, s |-> s, t |-> t, u |-> u,
                       same  |-> ok /\ u = t,
-                      sv    |-> SameValue(t, u),
+                      sv    |-> SameValue(t, u) /\ (ok => SamePathsAll(t, u)),
                       smd   |-> SameMd(t, u),
-                      st    |-> DumpStable(t, u, AsIs),
+                      st    |-> DumpStable(t, u, AsIs) /\ (ok => SfStableAll(t, u)),
+                      pf    |-> pf,
                       dx    |-> dx,
                       fired |-> Fired(t, AsIs),
                       ideal |-> RoundTrip(t, {}) = t]))
